@@ -78,6 +78,11 @@ type setup struct {
 // build renders membership (label, inres, infr, inmap) into a real config,
 // store and server. spell selects how the configuration spells the names.
 func build(c *vf.Ctx, label string, inres, infr, inmap bool, spell int) (*setup, error) {
+	return buildWith(c, label, inres, infr, inmap, spell, nil)
+}
+
+// buildWith is build with the server's packet conn passed through wrap (stage F: a conn whose operations can fail).
+func buildWith(c *vf.Ctx, label string, inres, infr, inmap bool, spell int, wrap func(net.PacketConn) net.PacketConn) (*setup, error) {
 	ids := mesh.Identities(5)
 	rAddr, fAddr, mAddr := ids[1].IP, ids[2].IP, ids[3].IP
 	st := config.Store{}
@@ -120,6 +125,9 @@ func build(c *vf.Ctx, label string, inres, infr, inmap bool, spell int) (*setup,
 	conn, err := net.ListenPacket("udp", "127.0.0.1:0")
 	if err != nil {
 		return nil, err
+	}
+	if wrap != nil {
+		conn = wrap(conn)
 	}
 	srv, err := dns.New(n, conn, store)
 	if err != nil {
@@ -194,6 +202,7 @@ type obs struct {
 	QName        string `json:"qname"`
 	Via          string `json:"via"`
 	Label        string `json:"label"`
+	Fault        string `json:"fault"` // "none", or the transport fault that hit this query (stage F); rcode "silent": no message reached the client
 }
 
 func rcodeName(rc int) string {
@@ -380,7 +389,7 @@ func run(c *vf.Ctx) {
 						if a.Tld == "no-question" {
 							q.Question = nil
 						}
-						o := obs{Ev: "query", Kind: a.Kind, Tld: a.Tld, Type: a.Type, Class: a.Class, InRes: a.InRes, InFr: a.InFr, InMap: a.InMap, QName: name, Label: label}
+						o := obs{Ev: "query", Kind: a.Kind, Tld: a.Tld, Type: a.Type, Class: a.Class, InRes: a.InRes, InFr: a.InFr, InMap: a.InMap, QName: name, Label: label, Fault: "none"}
 						// direct
 						w := &recWriter{}
 						p, pv, _ := vf.NoPanic(func() { s.srv.ServeDNS(w, q) })
@@ -417,7 +426,14 @@ func run(c *vf.Ctx) {
 							o2 := o
 							o2.Via = "udp-header-only"
 							hdr := []byte{0, byte(1 + ci%250), 1, 0, 0, 1, 0, 0, 0, 0, 0, 0}
-							o2.Rcode = rawExchange(s.conn.LocalAddr().String(), hdr)
+							o2.Rcode = rawExchange(s.conn.LocalAddr().String(), hdr, 250*time.Millisecond)
+						if o2.Rcode == "noreply" && udpErrs < 12 {
+							// second try with patience (a loaded machine must not look like a silent server); bounded like the
+							// other wire probes
+							if o2.Rcode = rawExchange(s.conn.LocalAddr().String(), hdr, 3*time.Second); o2.Rcode == "noreply" {
+								udpErrs++
+							}
+						}
 							o2.Source, o2.AddrOK = "", false
 							c.Eval(1)
 							obsAll = append(obsAll, o2)
@@ -457,6 +473,16 @@ func run(c *vf.Ctx) {
 	c.Sample(obsAll[len(obsAll)/2])
 	c.Logf("R: %d queries", len(obsAll))
 
+	// ---- Stage F: the same cases with a transport that fails (fault.go); the observations join the same trace.
+	fobs := faultStage(c, groups, keys)
+	for i, o := range fobs {
+		if i == 0 || (o.Fault != "none" && i%97 == 1) {
+			c.Sample(o)
+		}
+		obsAll = append(obsAll, o)
+		trace = append(trace, o)
+	}
+
 	// ---- Stage T
 	rejectAt, inv, tres, terr := c.TraceCheck("Resolver_Trace", "Resolver_Trace.cfg", trace, vf.TLCOpts{Workers: 1, Timeout: 20 * time.Minute})
 	if terr != nil {
@@ -483,7 +509,11 @@ func run(c *vf.Ctx) {
 			if o.Tld == "no-question" {
 				key = vf.Key(explain(o), o.Tld, o.Via)
 			}
-			c.Violation(key, fmt.Sprintf("resolver reply not allowed by the source order: %s for %q (%s): rcode=%s source=%q addrok=%v lookup=%q", explain(o), o.QName, o.Via, o.Rcode, o.Source, o.AddrOK, o.Lookup), o, nil)
+			after := ""
+			if o.Fault != "none" && o.Fault != "" {
+				after = fmt.Sprintf(" - this message reached the client after a failed transport operation of the server (%s); the name's source order allows no such answer", o.Fault)
+			}
+			c.Violation(key, fmt.Sprintf("resolver reply not allowed by the source order: %s for %q (%s): rcode=%s source=%q addrok=%v lookup=%q%s", explain(o), o.QName, o.Via, o.Rcode, o.Source, o.AddrOK, o.Lookup, after), o, nil)
 		}
 		if n == 0 {
 			c.Broken("trace rejected at %d but no observation explains it", rejectAt)
@@ -492,13 +522,13 @@ func run(c *vf.Ctx) {
 }
 
 // rawExchange sends one UDP packet and returns the reply's rcode name.
-func rawExchange(addr string, pkt []byte) string {
+func rawExchange(addr string, pkt []byte, wait time.Duration) string {
 	conn, err := net.Dial("udp", addr)
 	if err != nil {
 		return "error:" + err.Error()
 	}
 	defer conn.Close()
-	_ = conn.SetDeadline(time.Now().Add(250 * time.Millisecond))
+	_ = conn.SetDeadline(time.Now().Add(wait))
 	if _, err := conn.Write(pkt); err != nil {
 		return "error:" + err.Error()
 	}
@@ -520,6 +550,7 @@ func explain(o obs) string {
 	if o.Panic {
 		return "panic"
 	}
+	silentAfterFault := o.Fault != "none" && o.Fault != "" && o.Rcode == "silent"
 	addr := map[string]bool{"A": true, "AAAA": true, "SVCB": true, "HTTPS": true, "ANY": true}
 	lookup := func() string {
 		switch {
@@ -540,7 +571,9 @@ func explain(o obs) string {
 	if o.Tld == "myco" && addr[o.Type] && (o.Class == "IN" || o.Class == "ANY") && lookup != "none" && lookup != "forbidden" {
 		want = lookup
 	}
-	if want == "nxdomain" {
+	if silentAfterFault {
+		// no message at all after a failed write: the client repeats the query
+	} else if want == "nxdomain" {
 		if o.Rcode == "replies=0" || o.Rcode == "noreply" {
 			return "no-reply"
 		}
@@ -548,6 +581,9 @@ func explain(o obs) string {
 			return "answered-instead-of-nxdomain"
 		}
 	} else {
+		if o.Rcode == "nxdomain" && o.Fault != "none" && o.Fault != "" {
+			return "name-error-for-a-name-with-a-source-after-failed-write"
+		}
 		if o.Rcode != "ok" {
 			return "no-answer"
 		}
